@@ -94,6 +94,11 @@ def main():
         if k % 5 == 0:
             text = [eg.respace(rng, t) for t in text]
         cases.append(make_case(text, gold, 'random-multi'))
+        if k % 4 == 1:
+            # a corpus repeats utterances: the same (text, gold) pair several times, shuffled among the others
+            idx = [i for i in range(len(text)) for _ in range(rng.choice([1, 2, 3]))]
+            rng.shuffle(idx)
+            cases.append(make_case([text[i] for i in idx], [gold[i] for i in idx], 'random-repeated-utterances'))
     correspond(ck, cases)
     n, problems = ck.coq_recheck()
     finish_proof_failures(ck, failures + problems)
